@@ -120,6 +120,9 @@ def run(repo, res):
 
     res.rule("R24.6", "set/reset pairing of the incremental tree sweeps: every per-node table the edge-insertion loop sets is reset to NULL by the edge-removal loop, and every accumulator incremented on insertion is decremented on removal")
     edgesweep.run(repo, res, "R24.6")
+    from .c30 import sweep_exhaustive
+
+    sweep_exhaustive(repo, res, "R24.6", [("rescaling", "_count_mutations"), ("phasing", "_mutation_frequency"), ("phasing", "_block_singletons")])
     kernel = repo.fn("rescaling", "_count_mutations")
     wrap = repo.fn("rescaling", "count_mutations")
     loc = lambda f, n=None: repo.loc(f, n)  # noqa: E731
